@@ -30,6 +30,12 @@ Definition tables_ok_kept (tb : tables) : bool :=
 Definition tables_ok_bare (tb : tables) : bool :=
   forallb (fun km => starts_with_dollar (fst km) || (match snd km with MT Redactable => true | _ => false end)) (Core tb ++ Agg tb).
 
+(* the same for the table consulted as a fallback for ANY key inside an Atlas Search stage: its top level holds operators
+   (maps of arguments); a leaf entry there would apply to every user field of that name inside $vectorSearch.filter,
+   moreLikeThis.like, ... - so only Redactable is harmless *)
+Definition tables_ok_search_bare (tb : tables) : bool :=
+  forallb (fun km => match snd km with MMap _ => true | MT Redactable => true | _ => false end) (Search tb).
+
 (* C05: the extended-JSON wrappers *)
 Definition tables_ok_binary (tb : tables) : bool :=
   has_ty_at (Core tb) ["$binary"; "base64"] Redactable && has_ty_at (Core tb) ["$binary"; "subType"] Exempt &&
